@@ -5,6 +5,7 @@ From HclV Require Import Base Expr Machine MachineSpec SchedSpec SchedProofs Bui
 From Coq Require Import Permutation.
 From HclV Require OrderSpec OrderProofs DiagOrderSpec DiagOrderProofs.
 From HclV Require Import Build BuildSpec Generated.
+From HclV Require SemanticsSpec SemanticsProofs.
 Open Scope string_scope.
 Open Scope N_scope.
 
@@ -139,3 +140,29 @@ Proof.
   intros f il iu. apply (DiagOrderProofs.with_valid_schedule_holds f gen_fixed il iu); vm_compute; reflexivity.
 Qed.
 Print Assumptions C01_valid_schedule_under_every_iteration_order.
+
+(* ---- the MEANING of a cycle (SemanticsSpec.v / SemanticsProofs.v): over the SOURCE program, a
+   wire map is a cycle_solution when constants and bank outputs hold their start-of-cycle values,
+   unassigned control signals are 0, every assigned wire equals the DENOTATION (ExprSpec.den, plain
+   arithmetic) of its expression under the same map truncated to its declared width, and every
+   built-in output in use equals what the register file / memory hold at the start of the cycle.
+   The simulator computes a solution; solutions are unique; so what it computes is THE solution -
+   independent of evaluation order and statement order *)
+Theorem C01_cycle_computes_a_solution : SemanticsSpec.stmt_cycle_solution_exists_and_is_computed.
+Proof. exact SemanticsProofs.cycle_solution_exists_and_is_computed_holds. Qed.
+Print Assumptions C01_cycle_computes_a_solution.
+Theorem C01_cycle_solution_is_unique : SemanticsSpec.stmt_cycle_solution_unique.
+Proof. exact SemanticsProofs.cycle_solution_unique_holds. Qed.
+Print Assumptions C01_cycle_solution_is_unique.
+Theorem C01_computed_values_are_the_solution : SemanticsSpec.stmt_computed_is_the_solution.
+Proof. exact SemanticsProofs.computed_is_the_solution_holds. Qed.
+Print Assumptions C01_computed_values_are_the_solution.
+(* the next state is determined by the solution: E then M write, memory write if enabled, each bank
+   by its own bubble / stall, status *)
+Theorem C01_next_state_from_solution : SemanticsSpec.stmt_next_state_from_solution.
+Proof. exact SemanticsProofs.next_state_from_solution_holds. Qed.
+Print Assumptions C01_next_state_from_solution.
+(* a cycle fails exactly when the evaluator, on the solution's values, reaches a division by zero *)
+Theorem C01_step_fails_iff_division_by_zero : SemanticsSpec.stmt_step_fails_iff_division_by_zero.
+Proof. exact SemanticsProofs.step_fails_iff_division_by_zero_holds. Qed.
+Print Assumptions C01_step_fails_iff_division_by_zero.
